@@ -175,8 +175,7 @@ def rule_update_order(ctx):
         cbs = [c for c in ast.walk(f.node) if isinstance(c, ast.Call) and isinstance(c.func, ast.Attribute) and c.func.attr == "_step_callback"]
         construct = f"Evolution.{name}"
         problems = []
-        if not assigns_t:
-            problems.append("never assigns self._t")
+        # (whether the clock self._t is advanced by the routine itself or by every caller is decided by evo-clock)
         if not cbs:
             problems.append("never runs the step callback")
         for c in cbs:
@@ -679,4 +678,94 @@ def rule_faithful_state(ctx):
             r.bad(Finding("faithful-state", "Evolution", f"{who} converts the integrator's vector as `{sig}` but the pt accessor as `{ref[1]}`: callbacks do not see the reported state", where=where, operand=who + ":sibling"))
         else:
             r.ok(f"Evolution[{who}]", sample={"where": who, "conversion": sig})
+    return r
+
+
+
+def rule_evo_clock(ctx):
+    r = RuleResult(
+        "evo-clock",
+        "every site that advances the state through `self._update_method(x)` leaves the clock at x: either every update "
+        "routine installed in that slot assigns `self._t = <its time parameter>` unconditionally (or is the integrator route, "
+        "whose clock is the stepper's), or the calling method itself assigns `self._t = x` after the call on every path to its exit / next iteration",
+    )
+    cls = ctx.prog.cls(EVO, "Evolution")
+    # routines installed in the slot
+    slot = set()
+    for f in cls.methods.values():
+        if f.is_alias:
+            continue
+        for a in ast.walk(f.node):
+            if isinstance(a, ast.Assign) and any(isinstance(t, ast.Attribute) and t.attr == "_update_method" for t in a.targets):
+                if isinstance(a.value, ast.Attribute) and isinstance(a.value.value, ast.Name) and a.value.value.id == "self":
+                    slot.add(a.value.attr)
+    if len(slot) < 4:
+        raise AnalysisError(f"evo-clock: only {len(slot)} routines found in the _update_method slot")
+
+    def callee_side(name):
+        g = cls.find(name)
+        if g is None:
+            return False
+        tparam = [a.arg for a in g.node.args.args if a.arg != "self"][:1]
+        for st in g.node.body:  # unconditional: a top-level statement of the routine
+            if isinstance(st, ast.Assign) and any(isinstance(t, ast.Attribute) and t.attr == "_t" and isinstance(t.value, ast.Name) and t.value.id == "self" for t in st.targets) \
+                    and isinstance(st.value, ast.Name) and tparam and st.value.id == tparam[0]:
+                return True
+        # integrator route: the clock is read from the stepper
+        if any(isinstance(c, ast.Call) and isinstance(c.func, ast.Attribute) and c.func.attr == "integrate" for c in ast.walk(g.node)):
+            return True
+        return False
+
+    lagging = sorted(n_ for n_ in slot if not callee_side(n_))
+    n = 0
+
+    def sets_clock(st, arg):
+        return isinstance(st, ast.Assign) and any(isinstance(t, ast.Attribute) and t.attr == "_t" for t in st.targets) and src_of(st.value) == arg
+
+    def after_ok(block, idx, arg, parents):
+        """does every path from just after block[idx] reach a clock write before leaving the method / starting the next iteration?"""
+        for st in block[idx + 1:]:
+            if sets_clock(st, arg):
+                return True
+            if isinstance(st, (ast.Return, ast.Raise, ast.Continue, ast.Break)):
+                return False
+            if any(isinstance(y, (ast.Yield, ast.YieldFrom)) for y in ast.walk(st)):
+                return False  # the state is handed out before the clock is set
+        if not parents:
+            return False
+        pblock, pidx, pnode = parents[-1]
+        if isinstance(pnode, (ast.For, ast.While)):
+            return False  # next iteration (or loop exit) reached without a clock write
+        return after_ok(pblock, pidx, arg, parents[:-1])
+
+    def visit(block, parents, f):
+        nonlocal n
+        for i, st in enumerate(block):
+            calls = [c for c in ast.walk(st) if isinstance(c, ast.Call) and isinstance(c.func, ast.Attribute) and c.func.attr == "_update_method"] \
+                if not isinstance(st, (ast.If, ast.For, ast.While, ast.With, ast.Try)) else []
+            for c in calls:
+                n += 1
+                construct = f"Evolution.{f.name}"
+                arg = src_of(c.args[0]) if c.args else "?"
+                if not lagging:
+                    r.ok(construct, sample={"call": src_of(c), "clock": "advanced by every routine in the slot"})
+                elif after_ok(block, i, arg, parents):
+                    r.ok(construct, sample={"call": src_of(c), "clock": "advanced by the caller after the call"})
+                else:
+                    r.bad(Finding("evo-clock", construct,
+                                  f"`{src_of(c)}` advances the state but the clock is not: {', '.join(lagging)} do(es) not assign self._t = <time> and this caller "
+                                  f"does not assign self._t = {arg} before it returns / yields / iterates — the next relative step starts from a stale time",
+                                  where=f"{f.module.relpath}:{c.lineno}", operand=f"{f.name}:{arg}"))
+            for fld in ("body", "orelse", "finalbody"):
+                sub = getattr(st, fld, None)
+                if isinstance(sub, list) and sub and isinstance(sub[0], ast.stmt):
+                    visit(sub, parents + [(block, i, st)], f)
+            for h in getattr(st, "handlers", []) or []:
+                visit(h.body, parents + [(block, i, st)], f)
+
+    for name, f in sorted(cls.methods.items()):
+        if f.is_alias or isinstance(f.node, ast.Lambda):
+            continue
+        visit(f.node.body, [], f)
+    r.floor(n, 3, "calls through the _update_method slot")
     return r
